@@ -23,7 +23,9 @@ void lemma_symbols(void)
     free(s);
   }
   g_fail = 0;
-  __CPROVER_assert(AtomicNumberToSymbol(bad, &e) != NULL || (e != NULL && g_fail == 1), "AtomicNumberToSymbol: NULL comes with exactly one error");
+  { char *s = AtomicNumberToSymbol(bad, &e);
+    __CPROVER_assert(s != NULL || (e != NULL && g_fail == 1), "AtomicNumberToSymbol: NULL comes with exactly one error");
+    free(s); }
   __CPROVER_assert((bad >= 1 && bad <= MENDEL_MAX) || e != NULL, "AtomicNumberToSymbol: an atomic number outside the element table is an error");
   e = NULL; g_fail = 0;
   __CPROVER_assert(SymbolToAtomicNumber("Xx", &e) == 0 && e != NULL && g_fail == 1, "SymbolToAtomicNumber: unknown symbol is 0 and one error");
